@@ -195,3 +195,40 @@ func H_C05_unknown_holds_shared() {
 	vAssert("shared-kept", g.P != nil && len(g.L) == 2 && g.L[0] == g.P && g.L[1] == g.P)
 	vAssert("shared-value", g.P.N == n && g.P.S == "sh")
 }
+
+type ZPerson struct {
+	Name string
+	Age  int32
+	ID   int64
+}
+
+// H_C05_case: only the first letter is matched case-insensitively: a wire field whose name differs from a Go
+// field in the case of a later letter has no Go counterpart and is skipped.
+func H_C05_case() {
+	age := vInt32("age")
+	stray := []string{"nAME", "nAme", "aGE", "id", "NAME", "AGE"}[vChoice("stray", 6)] // ("iD" would be the field ID itself)
+	var strayVal []byte
+	if stray[0] == 'a' || stray[0] == 'A' {
+		strayVal = refInt(99)
+	} else if stray[0] == 'i' {
+		strayVal = refLong(77)
+	} else {
+		strayVal = refStr("bogus")
+	}
+	before := vChoice("strayFirst", 2) == 1
+	fields := []string{"name", "age", "ID"}
+	body := refCat(refStr("alice"), refInt(age), refLong(5))
+	if before {
+		fields = append([]string{stray}, fields...)
+		body = refCat(strayVal, body)
+	} else {
+		fields = append(fields, stray)
+		body = refCat(body, strayVal)
+	}
+	tm := map[string]reflect.Type{"ZPerson": reflect.TypeOf(ZPerson{})}
+	out, err := ToObject(refCat(refClassDef("ZPerson", fields), []byte{0x60}, body), tm)
+	vAssert("decode-noerr", err == nil)
+	g, ok := out.(*ZPerson)
+	vAssert("type", ok)
+	vAssert("bound-by-exact-name", g.Name == "alice" && g.Age == age && g.ID == 5)
+}
